@@ -225,7 +225,8 @@ func (c *Cloud) UnAssignIP(in *rpc.UnAssignIPRequest) (*rpc.UnAssignIPReply, err
 	op := c.w.S.Gate(&Call{Name: "UnAssignIP", Args: map[string]interface{}{"node": in.NodeName, "ip": ip}})
 	ok := !c.w.S.Fallible(op)
 	c.mu.Lock()
-	if ok {
+	if ok && c.Assign[ip] == in.NodeName {
+		// unassigning from a node the ip is not assigned to is a successful no-op at the provider
 		delete(c.Assign, ip)
 	}
 	c.Log = append(c.Log, map[string]interface{}{"call": "UnAssignIP", "node": in.NodeName, "ip": ip, "ok": ok})
